@@ -1,4 +1,4 @@
-\* C19 two consecutive calls in one process: the repository moves on between them (same URL, other
+\* C19 two consecutive calls in one process (quick tier: seven of the ten fault kinds): the repository moves on between them (same URL, other
 \* URL, other repository); <= 3 versions at the second call, at most one of the calls has a fault.
 \* Checks the per-call invariants and prints one CASE line per two-call behaviour.
 SPECIFICATION SpecD
@@ -9,11 +9,11 @@ CONSTANTS
   Mode = "code"
   Runs = 2
   FlavourPhase = 9
-  FaultKinds = {"none", "patchCorrupt", "patchTruncated", "badLastPatch", "wrongResultHash", "indexMissing", "indexGarbage", "indexEmpty", "writeFails", "renameFails"}
+  FaultKinds = {"none", "patchCorrupt", "wrongResultHash", "indexMissing", "indexEmpty", "writeFails", "renameFails"}
   Entries = {"update_file", "download_file", "replace_file"}
   RememberIndex = FALSE
   Emit = TRUE
-  EmitEvery = 1
+  EmitEvery = 5
   EmitPhase = 0
 INVARIANTS TypeOK Converges NeverCorrupt NoTempLeft AlwaysOldOrNew FaultRaises IndexFaultConverges
            HashFaultWritesNothing GarbledNeverApplied ByPatchesWhenListed
